@@ -923,6 +923,11 @@ func (c *Conn) advanceFrame() (int, error) {
 
 	if frameType == continuationFrame || frameType == TextMessage || frameType == BinaryMessage {
 
+		if frameType != continuationFrame {
+			// A text or binary frame starts a new message. Continuation frames
+			// of a previous message that NextReader skipped are not part of it.
+			c.readLength = 0
+		}
 		c.readLength += c.readRemaining
 		// Don't allow readLength to overflow in the presence of a large readRemaining
 		// counter.
